@@ -1,6 +1,7 @@
 import PsiModel.Stim
 import PsiProofs.Helper.C01_Stim
 /-! Sample bookkeeping of finite stimuli and the shape of the full envelope (C09). -/
+set_option linter.dupNamespace false
 namespace Psi.Stim
 open Psi.Chunk
 
